@@ -87,6 +87,8 @@ namespace
         std::optional<GraphBuilder> gb;
         std::string static_err;
         std::string build_exc;
+        std::size_t node_count{0};
+        bool dedupe_value_records{false};  // C06: a shared instance logs once, an unshared twin logs the same record twice
     };
 
     void build_program(Built &b, const Program &p)
@@ -98,6 +100,7 @@ namespace
             WireCtx c{w};
             wire_program(c, p, true);
             b.gb.emplace(std::move(w).finish());
+            b.node_count = b.gb->nodes().size();
             b.static_err = check_edges(*b.gb);
         }
         catch (const std::exception &e) { b.build_exc = e.what(); }
@@ -151,6 +154,15 @@ namespace
         std::vector<Rec> got = log.evals;
         std::stable_sort(got.begin(), got.end());
         std::stable_sort(want.begin(), want.end());
+        if (b.dedupe_value_records)
+        {
+            auto dedupe = [](std::vector<Rec> &v) {
+                std::vector<Rec> o;
+                for (auto &r : v) { if (r.id < 9000000 && !o.empty() && o.back() == r) continue; o.push_back(r); }
+                v.swap(o);
+            };
+            dedupe(got); dedupe(want);
+        }
         std::ostringstream sig;
         for (auto &r : got) sig << r.id << "@" << r.t << "=" << r.out << ";";
         res.sig = sig.str();
@@ -210,7 +222,7 @@ namespace
                     else cur = wire<NF1>(w, cur, Int{1}, Int{i + 1});
                 }
                 if (variant == 'd') (*d)(cur); else (*fb)(cur);
-                wire<NSink>(w, cur, Int{9001});
+                wire<NSink>(w, cur, Int{9000001});
             }
             else
             {
@@ -219,7 +231,7 @@ namespace
                 Port<TS<Int>> b = a;
                 for (int i = 1; i < n; ++i) b = wire<NF1>(w, b, Int{1}, Int{i + 1});
                 w.add_rank_dependency(a.node(), b.node());
-                wire<NSink>(w, b, Int{9001});
+                wire<NSink>(w, b, Int{9000001});
             }
             GraphBuilder gb = std::move(w).finish();
             testing::set_replay_values<Int>(gb.global_state(), "s0", {Int{1}, std::nullopt, Int{2}});
@@ -243,17 +255,220 @@ namespace
     }
 }  // namespace
 
+namespace
+{
+    // structural class of a statement: what the interning key may legitimately merge
+    std::string struct_class(const Program &p, int i, std::vector<std::string> &memo)
+    {
+        if (!memo[static_cast<std::size_t>(i)].empty()) return memo[static_cast<std::size_t>(i)];
+        const Stmt &s = p.st[static_cast<std::size_t>(i)];
+        std::ostringstream o;
+        if (n_inputs(s.kind) == 0) o << "src" << i;  // every source statement is its own node (distinct keys)
+        else
+        {
+            o << static_cast<char>(s.kind) << "k" << s.k << "i" << s.id << "q" << s.pmask << "(";
+            for (int j = 0; j < n_inputs(s.kind); ++j) o << struct_class(p, s.in[j], memo) << ",";
+            o << ")";
+        }
+        return memo[static_cast<std::size_t>(i)] = o.str();
+    }
+
+    /** Number of root-graph nodes a correct wiring must at least produce: one per structural class + one per sink. */
+    std::size_t min_nodes(const Program &p)
+    {
+        std::vector<std::string> memo(p.st.size());
+        std::set<std::string> classes;
+        std::size_t sinks = 0;
+        for (std::size_t i = 0; i < p.st.size(); ++i)
+        {
+            if (!is_bool_kind(p.st[i].kind)) ++sinks;
+            if (p.st[i].kind == INL) continue;  // inlined bodies expand to their own nodes; not counted in the bound
+            classes.insert(struct_class(p, static_cast<int>(i), memo));
+        }
+        return classes.size() + sinks;
+    }
+
+    void c06_enumerate(verif::Ctx &ctx)
+    {
+        const bool th = ctx.thorough();
+        Space sp;
+        sp.max_nodes = th ? 4 : 3;
+        sp.kinds = {SRC, BSRC, F1, F2, ACC, SUML, SUMB, ITE, NEST};
+        sp.cycles = 3;
+        sp.max_sources = 2;
+        std::uint64_t programs = 0, orders = 0, shared_seen = 0, unshared_seen = 0;
+        for (int n = 2; n <= sp.max_nodes; ++n)
+        {
+            std::vector<Stmt> cur;
+            gen(sp, cur, [&](const std::vector<Stmt> &base) {
+                // twin every non-source statement i in three ways, and append a combiner reading both
+                for (std::size_t i = 0; i < base.size(); ++i)
+                {
+                    if (n_inputs(base[i].kind) == 0 || base[i].kind == ITE) continue;
+                    for (char mode : {'T', 'K', 'I', 'P'})
+                    {
+                        std::vector<Stmt> st = base;
+                        for (std::size_t j = 0; j < st.size(); ++j) st[j].id = static_cast<int>(j) + 1;
+                        Stmt twin = st[i];
+                        if (mode == 'K') { if (twin.kind != F1 && twin.kind != F2 && twin.kind != NEST) continue; twin.k = (twin.kind == NEST) ? (twin.k + 1) % static_cast<int>(bodies().size()) : twin.k + 1; twin.id = 50; }
+                        if (mode == 'P')
+                        {
+                            // same definition, inputs and scalars; one input is wired through passive(): a different node
+                            if (twin.kind != F2 && twin.kind != F3) continue;
+                            twin.pmask = 2u;
+                        }
+                        if (mode == 'I')
+                        {
+                            // replace the first int input by a different earlier int port
+                            int repl = -1;
+                            const int slot = (twin.kind == ITE) ? 1 : 0;
+                            for (int c = 0; c < static_cast<int>(i); ++c) if (!is_bool_kind(st[static_cast<std::size_t>(c)].kind) && c != twin.in[slot]) { repl = c; break; }
+                            if (repl < 0) continue;
+                            twin.in[slot] = repl; twin.id = 51;
+                        }
+                        // insert twin right after i; shift later references
+                        st.insert(st.begin() + static_cast<long>(i) + 1, twin);
+                        for (std::size_t j = i + 2; j < st.size(); ++j)
+                            for (int q = 0; q < n_inputs(st[j].kind); ++q) if (st[j].in[q] > static_cast<int>(i)) ++st[j].in[q];
+                        Stmt comb; comb.kind = F2; comb.in[0] = static_cast<int>(i); comb.in[1] = static_cast<int>(i) + 1; comb.k = 7; comb.id = 60;
+                        st.push_back(comb);
+                        if (!ctx.next_is_mine()) continue;
+                        ++programs;
+                        Program p; p.st = st;
+                        const std::size_t need = min_nodes(p);
+                        std::vector<int> perm(st.size());
+                        for (std::size_t q = 0; q < perm.size(); ++q) perm[q] = static_cast<int>(q);
+                        std::vector<int> srcs;
+                        for (std::size_t q = 0; q < st.size(); ++q) if (st[q].kind == SRC || st[q].kind == BSRC) srcs.push_back(static_cast<int>(q));
+                        const int cyc = 2;
+                        const unsigned per = 1u << cyc;
+                        std::uint64_t nh = 1;
+                        for (std::size_t q = 0; q < srcs.size(); ++q) nh *= per;
+                        std::string first_sig;  // differential across orders: sink streams of the first order
+                        std::map<std::uint64_t, std::string> sigs_by_history;
+                        bool first_order = true;
+                        do
+                        {
+                            ++orders;
+                            p.order = perm;
+                            const std::string ptxt = to_text(p);
+                            Built built;
+                            built.dedupe_value_records = true;
+                            // ids must survive the text round trip: carry them explicitly
+                            build_program(built, p);
+                            ctx.count("graphs_built");
+                            if (built.build_exc.empty())
+                            {
+                                if (built.node_count < need)
+                                {
+                                    std::ostringstream d; d << "c06:" << mode << ":" << ptxt << "#" << cyc << ":";
+                                    for (std::size_t q = 0; q < srcs.size(); ++q) d << (q ? "," : "") << 3;
+                                    d << ":";
+                                    for (std::size_t q = 0; q < srcs.size(); ++q) d << (q ? "," : "") << 1;
+                                    ctx.violation(d.str(), "wiring produced " + std::to_string(built.node_count) + " nodes but the program has " + std::to_string(need) +
+                                                  " structurally distinct value nodes + sinks (distinct nodes or sinks were merged)", "c06 node count");
+                                }
+                                // sharing statistic for exact twins (allowed either way)
+                                if (mode == 'T') { if (built.node_count == need) ++shared_seen; else ++unshared_seen; }
+                            }
+                            std::size_t hidx = 0;
+                            for (std::uint64_t hi = 0; hi < nh; ++hi)
+                            {
+                                std::uint64_t x = hi;
+                                std::vector<unsigned> masks;
+                                bool dull = false;
+                                for (std::size_t q = 0; q < srcs.size(); ++q) { masks.push_back(static_cast<unsigned>(x % per)); x /= per; }
+                                for (unsigned m : masks) if (m == 0) dull = true;
+                                if (dull) continue;
+                                std::ostringstream d;
+                                d << "c06:" << mode << ":" << ptxt << "#" << cyc << ":";
+                                for (std::size_t q = 0; q < masks.size(); ++q) d << (q ? "," : "") << masks[q];
+                                d << ":";
+                                for (std::size_t q = 0; q < masks.size(); ++q) d << (q ? "," : "") << (st[static_cast<std::size_t>(srcs[q])].kind == BSRC ? 1u : 0u);
+                                const std::string desc = d.str();
+                                History hh; hh.cycles = cyc; hh.tick = masks;
+                                for (std::size_t q = 0; q < masks.size(); ++q) hh.bval.push_back(st[static_cast<std::size_t>(srcs[q])].kind == BSRC ? 1u : 0u);
+                                ++ctx.evaluations;
+                                CaseResult r = run_history(built, hh);
+                                ctx.transitions += r.evals;
+                                ++ctx.traces;
+                                if (r.unsupported) { ctx.count("unsupported_constructs"); ctx.sample("unsupported", ptxt + " => " + r.sig); break; }
+                                ctx.state(r.sig);
+                                if (mode != 'T' || true) ctx.nontriv(desc.substr(0, desc.find('@')) + desc.substr(desc.find('#')));
+                                if (r.violation) { ctx.violation(desc, *r.violation, r.violation->substr(0, 60)); }
+                                else
+                                {
+                                    // order independence, differential form: identical observation signature for every order
+                                    if (first_order) sigs_by_history[hi] = r.sig;
+                                    else if (sigs_by_history.count(hi) && sigs_by_history[hi] != r.sig)
+                                        ctx.violation(desc, "output streams differ between two insertion orders of the same program", "c06 order dependence");
+                                    if (ctx.evaluations % 20011 == 1) ctx.sample("runs", desc);
+                                }
+                                ++hidx;
+                            }
+                            first_order = false;
+                        } while (std::next_permutation(perm.begin(), perm.end()));
+                    }
+                }
+            }, n);
+        }
+        ctx.counters["programs"] = programs;
+        ctx.counters["program_orders"] = orders;
+        ctx.counters["exact_twin_graphs_shared"] = shared_seen;
+        ctx.counters["exact_twin_graphs_not_shared"] = unshared_seen;
+        if (ctx.shard == 0)
+        {
+            verif::run_checked(ctx, "c06typed:");
+            ctx.count("typed_twin_cases");
+        }
+    }
+
+    // same definition + same scalars, differing only in the resolved output type: must stay distinct
+    std::optional<std::string> run_typed_twins()
+    {
+        Wiring w;
+        auto a = wire<stdlib::replay_impl, TS<Int>>(w, Str{"k"});
+        auto b = wire<stdlib::replay_impl, TS<Bool>>(w, Str{"k"});
+        auto a2 = wire<stdlib::replay_impl, TS<Int>>(w, Str{"k"});
+        if (a.node() == b.node()) return std::string{"replay<TS<Int>>(k) and replay<TS<Bool>>(k) were merged into one node"};
+        (void)a2;
+        wire<NSink>(w, a, Int{9000001});
+        wire<NSink>(w, a2, Int{9000001});
+        GraphBuilder gb = std::move(w).finish();
+        // 2 distinct sources (a and a2 may share) + 2 sinks
+        if (gb.nodes().size() < 3) return "typed twins: " + std::to_string(gb.nodes().size()) + " nodes, expected at least 3";
+        std::size_t sinks = 0;
+        for (auto &nb : gb.nodes()) { const auto *m = nb.type().schema(); if (m && m->display_name && std::string{m->display_name} == "gx_sink") ++sinks; }
+        if (sinks != 2) return "two sinks wired on the same port with the same scalars must stay two nodes; found " + std::to_string(sinks);
+        return std::nullopt;
+    }
+}  // namespace
+
 void verif_init() { stdlib::register_standard_operators(); setup_bodies(); }
 
 std::optional<std::string> verif_run_case(verif::Ctx &ctx, const std::string &desc)
 {
     if (desc.rfind("run:", 0) == 0) return run_case_impl(desc, &ctx).violation;
     if (desc.rfind("cyc:", 0) == 0) return run_cycle_case(desc);
+    if (desc.rfind("c06typed:", 0) == 0) return run_typed_twins();
+    if (desc.rfind("c06:", 0) == 0)
+    {
+        const std::string body = desc.substr(6);
+        const auto h1 = body.find('#');
+        Built b;
+        b.dedupe_value_records = true;
+        Program p = parse_program(body.substr(0, h1));
+        build_program(b, p);
+        if (b.build_exc.empty() && b.node_count < min_nodes(p))
+            return "wiring produced " + std::to_string(b.node_count) + " nodes but the program has " + std::to_string(min_nodes(p)) + " structurally distinct value nodes + sinks";
+        return run_history(b, parse_history(body.substr(h1 + 1))).violation;
+    }
     throw verif::HarnessError("unknown case " + desc);
 }
 
 void verif_enumerate(verif::Ctx &ctx)
 {
+    if (ctx.sub == "c06") { c06_enumerate(ctx); return; }
     const bool th = ctx.thorough();
     Space sp;
     sp.max_nodes = th ? 5 : 4;
